@@ -17,10 +17,12 @@ struct Case {
     offset: usize,
     behaviour: usize,
     bad_clients: usize,
+    /// scale family: this many further well-behaved clients connect one after the other while the bad ones are around
+    extra_goods: usize,
 }
 
 fn case_json(c: &Case) -> Value {
-    json!({"engine":"E4","type": c.ty.name(), "transport": c.tr.name(), "offset": c.offset, "behaviour": BEHAVIOURS[c.behaviour], "bad_clients": c.bad_clients})
+    json!({"engine":"E4","type": c.ty.name(), "transport": c.tr.name(), "offset": c.offset, "behaviour": BEHAVIOURS[c.behaviour], "bad_clients": c.bad_clients, "extra_goods": c.extra_goods})
 }
 
 struct Good {
@@ -239,6 +241,28 @@ async fn run_case(c: &Case) -> Vec<(String, String)> {
         }
         Err(e) => viol.push((format!("good-client-blocked/during/{}", BEHAVIOURS[c.behaviour]), format!("{}: a well-behaved client that connected meanwhile could not complete its handshake within {} s: {}", what, e4::HORIZON.as_secs(), e))),
     }
+    // scale family: many more well-behaved clients, one after the other, while the bad ones are still around
+    // (a bounded window or pool of pending handshakes shows only beyond its size)
+    for k in 0..c.extra_goods {
+        if !viol.is_empty() {
+            break;
+        }
+        match good_connect(c.ty, &ep, &format!("X{}", k)).await {
+            Ok(g) => {
+                goods.push(g);
+                if !wait_accepted(&mut monitor, &mut mon, goods.len()).await {
+                    viol.push((format!("good-client-not-registered/during/{}", BEHAVIOURS[c.behaviour]), format!("{}: well-behaved client #{} connecting meanwhile was never reported as accepted", what, k + 3)));
+                }
+            }
+            Err(e) => viol.push((format!("good-client-blocked/during/{}", BEHAVIOURS[c.behaviour]), format!("{}: well-behaved client #{} connecting meanwhile could not complete its handshake within {} s: {}", what, k + 3, e4::HORIZON.as_secs(), e))),
+        }
+    }
+    if c.extra_goods > 0 && viol.is_empty() {
+        let i = goods.len() - 1;
+        if let Err(e) = exchange(c.ty, &mut sock, &mut goods, i).await {
+            viol.push((format!("good-client-affected/during/{}", BEHAVIOURS[c.behaviour]), format!("{}: the last of {} well-behaved clients completed its handshake but its message exchange failed: {}", what, c.extra_goods + 2, e)));
+        }
+    }
     // established traffic is not interrupted
     if viol.is_empty() {
         if let Err(e) = exchange(c.ty, &mut sock, &mut goods, 0).await {
@@ -295,7 +319,7 @@ fn all_cases(tier: Tier) -> Vec<Case> {
                 for behaviour in 0..3 {
                     let ks: Vec<usize> = if tier == Tier::Thorough || offset % 16 == 0 { vec![1, 3] } else { vec![1] };
                     for k in ks {
-                        v.push(Case { ty, tr: *tr, offset, behaviour, bad_clients: k });
+                        v.push(Case { ty, tr: *tr, offset, behaviour, bad_clients: k, extra_goods: 0 });
                     }
                 }
             }
@@ -307,8 +331,27 @@ fn all_cases(tier: Tier) -> Vec<Case> {
             for tr in [Tr::Tcp6, Tr::Ipc] {
                 for offset in [0usize, 1, 10, 63, 64, 65, 66, 70] {
                     for behaviour in 0..3 {
-                        v.push(Case { ty, tr, offset, behaviour, bad_clients: 1 });
+                        v.push(Case { ty, tr, offset, behaviour, bad_clients: 1, extra_goods: 0 });
                     }
+                }
+            }
+        }
+    }
+    // scale family: 1 / 8 / 64 (thorough 256) silent clients stalled at 4 handshake stages, then 20 (thorough 100)
+    // further well-behaved clients one after the other
+    let stallers: &[usize] = if tier == Tier::Thorough { &[1, 8, 64, 256] } else { &[1, 8, 64] };
+    for ty in [Ty::Pull, Ty::Pub, Ty::Router, Ty::Rep] {
+        for tr in [Tr::Tcp4, Tr::Ipc] {
+            for &k in stallers {
+                for offset in [0usize, 10, 64, 70] {
+                    v.push(Case { ty, tr, offset, behaviour: 0, bad_clients: k, extra_goods: tier.pick(20, 100) });
+                }
+            }
+            // ... and 200 (thorough 600) clients that close / switch to garbage in mid-handshake (handshakes that FAIL must
+            // not use anything up either)
+            for behaviour in [1usize, 2] {
+                for offset in [10usize, 70] {
+                    v.push(Case { ty, tr, offset, behaviour, bad_clients: tier.pick(200, 600), extra_goods: 3 });
                 }
             }
         }
@@ -360,6 +403,7 @@ pub fn run(tier: Tier, replay: Option<String>) -> i32 {
             offset: r["offset"].as_u64().unwrap() as usize,
             behaviour: BEHAVIOURS.iter().position(|b| Some(*b) == r["behaviour"].as_str()).unwrap(),
             bad_clients: r["bad_clients"].as_u64().unwrap() as usize,
+            extra_goods: r["extra_goods"].as_u64().unwrap_or(0) as usize,
         };
         let rt = e4::runtime(2);
         let viol = rt.block_on(run_case(&c));
@@ -415,7 +459,7 @@ pub fn run(tier: Tier, replay: Option<String>) -> i32 {
     ck.cov("evaluations", done);
     ck.cov("distinct_nontrivial", cases.iter().filter(|c| c.offset > 0 || c.behaviour != 0).count() as u64);
     ck.cov("exhaustive", skipped == 0);
-    ck.cov("rule", format!("for each of the 9 bound socket types over {}: a raw client that sends the first k bytes of a valid greeting+READY for EVERY k in 0..N-1 and then {{goes silent, closes, switches to 96 bytes of garbage}}, one such client (three at every 16th offset{}), with a well-behaved raw client connecting before, while and after: {} cases, all distinct; non-trivial = the bad client sent at least one byte or misbehaved actively. Oracle (monotone conditions, {} s horizon): the client connecting meanwhile completes its handshake and a message exchange that proves its connection works in the direction(s) the type supports (for round-robin senders: one send per well-behaved client reaches every one of them, so a half-handshaken connection in the rotation is detected); the connection established before still works; the monitor reports AcceptFailed for every client that closes mid-handshake (garbage may merely stall a handshake, which is not a failure) and never more Accepted events than completed handshakes; a client connecting afterwards works too.", match tier { Tier::Quick => "TCP v4 (TCP v6 and IPC at 8 structurally interesting offsets)", Tier::Thorough => "TCP v4, TCP v6 and IPC" }, if tier == Tier::Thorough { " — thorough: at every offset" } else { "" }, cases.len(), e4::HORIZON.as_secs()));
+    ck.cov("rule", format!("for each of the 9 bound socket types over {}: a raw client that sends the first k bytes of a valid greeting+READY for EVERY k in 0..N-1 and then {{goes silent, closes, switches to 96 bytes of garbage}}, one such client (three at every 16th offset{}), with a well-behaved raw client connecting before, while and after; plus a scale family (PULL/PUB/ROUTER/REP over TCP v4 and IPC: 1 / 8 / 64 (thorough 256) silent clients stalled at offsets 0, 10, 64, 70, then 20 (thorough 100) further well-behaved clients one after the other, each of which must complete its handshake; and 200 (thorough 600) clients that close or switch to garbage at offsets 10 / 70 followed by well-behaved ones - not exhaustive in the counts): {} cases, all distinct; non-trivial = the bad client sent at least one byte or misbehaved actively. Oracle (monotone conditions, {} s horizon): the client connecting meanwhile completes its handshake and a message exchange that proves its connection works in the direction(s) the type supports (for round-robin senders: one send per well-behaved client reaches every one of them, so a half-handshaken connection in the rotation is detected); the connection established before still works; the monitor reports AcceptFailed for every client that closes mid-handshake (garbage may merely stall a handshake, which is not a failure) and never more Accepted events than completed handshakes; a client connecting afterwards works too.", match tier { Tier::Quick => "TCP v4 (TCP v6 and IPC at 8 structurally interesting offsets)", Tier::Thorough => "TCP v4, TCP v6 and IPC" }, if tier == Tier::Thorough { " — thorough: at every offset" } else { "" }, cases.len(), e4::HORIZON.as_secs()));
     ck.sample(case_json(&cases[cases.len() / 2]));
     ck.sample(case_json(&cases[7]));
     ck.assume("OS schedules are not enumerated; 'never completes' is observed as 'not within the 5 s horizon' (correct code needs milliseconds)");
